@@ -420,13 +420,7 @@ theorem sdmx_roundtrip_daily (n : Int) (hyr : 0 ≤ (ord2ymd n).1 ∧ (ord2ymd n
   show fromSdmx str = _
   simp only [fromSdmx, hdet, bind, Except.bind, hsd, hback]
 
-/-! ### Integer periods: `(n)` with any number of digits
-
-Proved (`detect_integer_shape`): every parenthesised, optionally signed, non-empty digit string of ANY length is
-detected as an integer period by the regenerated pattern. NOT proved (partial): that `str(abs(n))` is such a digit
-string whose value is `abs(n)` (a fact about `Nat.toDigits`/number printing) and hence the full statement
-  `∀ n, (toSdmx ⟨.I, n⟩).bind fromSdmx = .ok ⟨.I, n⟩`;
-that round trip is tied by the correspondence run on integer serials of 1 … 9 digits of both signs. -/
+/-! ### Integer periods: `(n)` with any number of digits -/
 
 theorem matchPlus_digits (ds : Str) (hne : ds ≠ []) (hd : ∀ c ∈ ds, isDigit c = true) :
     matchItems [(.digit, .plus), (.lit ')', .one)] (ds ++ [')']) = true := by
@@ -472,6 +466,67 @@ theorem detect_integer_shape (sign : Str) (hs : sign = [] ∨ sign = ['-'] ∨ s
   · simp only [List.cons_append, List.nil_append] at hm ⊢
     simp [detectCompiled, matchItems, Atom.accepts, hm, freqOfValue?, freqInteger, isDigit, pure, Except.pure]
 
+
+/-- **SDMX round trip for integer periods**, every integer serial (any number of digits, either sign), with the
+frequency auto-detected by the regenerated pattern -/
+theorem sdmx_roundtrip_integer (n : Int) : (toSdmx ⟨.I, n⟩).bind fromSdmx = .ok ⟨.I, n⟩ := by
+  obtain ⟨hd, hne, hp⟩ := natDigits_spec n.natAbs
+  obtain ⟨c, cs, hcs⟩ : ∃ c cs, natDigits n.natAbs = c :: cs := by
+    cases h : natDigits n.natAbs with
+    | nil => exact absurd h hne
+    | cons c cs => exact ⟨c, cs, rfl⟩
+  have hc : isDigit c = true := hd c (by rw [hcs]; simp)
+  have hcd : IsDig c (digitVal c) := by
+    refine ⟨?_, ?_⟩
+    · -- a digit character is the digit character of its value
+      have : ∀ ch : Char, isDigit ch = true → ch = digitChar (digitVal ch) ∧ digitVal ch < 10 := by
+        intro ch h
+        simp only [isDigit, Bool.and_eq_true, decide_eq_true_eq] at h
+        have h1 : 48 ≤ ch.toNat := by simpa using h.1
+        have h2 : ch.toNat ≤ 57 := by simpa using h.2
+        refine ⟨?_, by simp only [digitVal]; omega⟩
+        apply Char.ext
+        simp only [digitChar, digitVal]
+        have e : 48 + (ch.toNat - 48) = ch.toNat := by omega
+        rw [e]
+        exact (Char.ofNat_toNat ch).symm ▸ rfl
+      exact (this c hc).1
+    · simp only [isDigit, Bool.and_eq_true, decide_eq_true_eq] at hc
+      have h1 : 48 ≤ c.toNat := by simpa using hc.1
+      have h2 : c.toNat ≤ 57 := by simpa using hc.2
+      simp only [digitVal]; omega
+  have hstrip : ∀ l : Str, strip ('(' :: (l ++ [')'])) = '(' :: (l ++ [')']) := fun l =>
+    strip_of_nonblank_ends '(' l ')' (by decide) (by decide)
+  by_cases hneg : n < 0
+  · -- negative: "(-ddd)"
+    have hstr : toSdmx ⟨.I, n⟩ = .ok ('(' :: (['-'] ++ natDigits n.natAbs ++ [')'])) := by
+      simp [toSdmx, hneg, pure, Except.pure]
+    have hdet := detect_integer_shape ['-'] (Or.inr (Or.inl rfl)) (natDigits n.natAbs) hne hd
+    rw [hstr]
+    show fromSdmx _ = _
+    simp only [fromSdmx, hdet, bind, Except.bind, fromSdmxAs]
+    have e : '(' :: (['-'] ++ natDigits n.natAbs ++ [')']) = '(' :: ((['-'] ++ natDigits n.natAbs) ++ [')']) := rfl
+    rw [e, hstrip]
+    simp only [List.reverse_append, List.reverse_cons, List.reverse_nil, List.nil_append, List.singleton_append,
+      List.cons_append, List.reverse_reverse, List.append_assoc]
+    simp only [parseInt, hp, Option.map_some, needSome, pure, Except.pure]
+    have e2 : -(n.natAbs : Int) = n := by omega
+    simp [e2]
+  · -- non-negative: "(ddd)"
+    have hstr : toSdmx ⟨.I, n⟩ = .ok ('(' :: ([] ++ natDigits n.natAbs ++ [')'])) := by
+      simp [toSdmx, hneg, pure, Except.pure]
+    have hdet := detect_integer_shape [] (Or.inl rfl) (natDigits n.natAbs) hne hd
+    rw [hstr]
+    show fromSdmx _ = _
+    simp only [fromSdmx, hdet, bind, Except.bind, fromSdmxAs]
+    have e : '(' :: ([] ++ natDigits n.natAbs ++ [')']) = '(' :: ((natDigits n.natAbs) ++ [')']) := rfl
+    rw [e, hstrip]
+    simp only [List.reverse_append, List.reverse_cons, List.reverse_nil, List.nil_append, List.singleton_append,
+      List.cons_append, List.reverse_reverse]
+    rw [hcs, parseInt_of_digit_head c _ hcd cs, ← hcs, hp]
+    simp only [Option.map_some, needSome, pure, Except.pure]
+    have e2 : (n.natAbs : Int) = n := by omega
+    simp [e2]
 
 /-! ## 6. Non-vacuity -/
 
